@@ -47,6 +47,9 @@ func (n *Node) StoreHashes() map[string]string {
 
 // Snapshot exports the committed state through ExportAppStateAndValidators.
 func (n *Node) Snapshot() (*Snap, error) {
+	if n.App.LastBlockHeight() == 0 {
+		return nil, fmt.Errorf("nothing is committed yet (height 0): the application cannot export")
+	}
 	exp, err := n.App.ExportAppStateAndValidators(false, nil, nil)
 	if err != nil {
 		return nil, err
